@@ -174,7 +174,7 @@ def rule_C01(env):
             p3 = R.o3_check(spec, lf)
         except (KeyError, AssertionError, OverflowError) as e:
             p3 = ["cannot evaluate: %r" % (e,)]
-        p3 = [p for p in p3 if "depth differs" in p or "MARK" in p or "pops" in p]
+        p3 = [p for p in p3 if "depth differs" in p or "mark" in p.lower() or "pops" in p]
         if p3:
             res.add("R01.c", "process_stack_ops/%s/%s" % (op, p3[0].split(":")[0][:50].replace(" ", "_")),
                     "simulated stack effect of %s drifts from the reference (depth/MARK): %s" % (op, "; ".join(p3)),
